@@ -5,14 +5,16 @@ CONSTANTS MaxEvents, MaxNow, MaxVol
 VARIABLE nev
 vars == <<ovars, nev>>
 Base == NoopCfg
-\* success rate only (factor 1.0), failure percentage only, both, failure percentage not enforced, no-op
+\* success rate only (factor 1.0), failure percentage only, both, failure percentage not enforced,
+\* failure percentage with a budget of one ejection among four endpoints, no-op
 Cfgs == << [Base EXCEPT !.sr = TRUE, !.srF = 10, !.srRV = 2, !.srMin = 2, !.srEnf = 100, !.maxPct = 50, !.base = 2, !.maxT = 3],
            [Base EXCEPT !.fp = TRUE, !.fpTh = 50, !.fpRV = 2, !.fpMin = 1, !.fpEnf = 100, !.maxPct = 50, !.base = 1, !.maxT = 4],
            [Base EXCEPT !.sr = TRUE, !.srF = 0, !.srRV = 1, !.srMin = 1, !.srEnf = 100,
                         !.fp = TRUE, !.fpTh = 40, !.fpRV = 2, !.fpMin = 2, !.fpEnf = 100, !.maxPct = 100, !.base = 1, !.maxT = 0],
            [Base EXCEPT !.fp = TRUE, !.fpTh = 0, !.fpRV = 1, !.fpMin = 0, !.fpEnf = 0, !.maxPct = 100, !.base = 1, !.maxT = 1],
+           [Base EXCEPT !.fp = TRUE, !.fpTh = 50, !.fpRV = 2, !.fpMin = 1, !.fpEnf = 100, !.maxPct = 25, !.base = 1, !.maxT = 1],
            Base >>
-EpSets == {{1, 2, 3}, {1, 2}, {2, 3}}
+EpSets == {{1, 2, 3}, {1, 2}, {2, 3}, {1, 2, 3, 4}}
 Batches == {<<2, 0>>, <<0, 2>>, <<1, 1>>}
 Init == OInit /\ nev = 0
 Tick == nev < MaxEvents /\ nev' = nev + 1
@@ -22,7 +24,7 @@ CallsT(e, s, f) == Tick /\ e \in eps /\ ~ej[e] /\ act[e][1] + act[e][2] + s + f 
 AdvanceT(d) == Tick /\ now + d <= MaxNow /\ Advance(d)
 IntervalT(Xs, Xf) == Tick /\ started /\ Xs \subseteq SRMay(cfg, eps, act) /\ Xf \subseteq FPMay(cfg, eps, act) /\ Interval(Xs, Xf)
 Next == \/ \E ci \in 1..Len(Cfgs), E \in EpSets : UpdateT(ci, E)
-        \/ \E e \in 1..3, b \in Batches : CallsT(e, b[1], b[2])
+        \/ \E e \in 1..4, b \in Batches : CallsT(e, b[1], b[2])
         \/ \E d \in {1, 3} : AdvanceT(d)
-        \/ \E Xs \in SUBSET (1..3), Xf \in SUBSET (1..3) : IntervalT(Xs, Xf)
+        \/ \E Xs \in SUBSET (1..4), Xf \in SUBSET (1..4) : IntervalT(Xs, Xf)
 ====
